@@ -460,6 +460,24 @@ class Gen:
             if ws:
                 a = r.choice(ws)
                 env.me.writes = True
+                if getattr(self, 'setw', False) and self.chance(0.4):
+                    # the store goes through a callee whose subscript is an actual: a wrong actual becomes a wrong address
+                    self.setw_used = True
+                    idx = self.index(env, a, 2, SAFE)
+                    if self.idf and self.chance(0.5):
+                        self.idf_used = True
+                        idx = ('call', 'idf', [idx])
+                    val = self.int_expr(env, r.randint(0, 3), FULL)
+                    if 'get' in self.sys and self.chance(0.4):
+                        # a system call whose own actual may contain a call, as an actual before another call-containing actual
+                        env.me.io = True
+                        val = ('syscall', self.callee('get'), [self.stream_expr(STREAMS_IN)])
+                        if self.chance(0.7):
+                            self.idf_used = True
+                            val = ('syscall', self.callee('get'), [('call', 'idf', [lit(0)])])
+                            if idx[0] != 'call':
+                                idx = ('call', 'idf', [idx])
+                    return ('pcall', 'setw', [('var', a), val, idx])
                 if self.chance(0.3):
                     return ('ass', ('idx', a, self.index(env, a, 2, SAFE)), self.int_expr(env, r.randint(0, 3), FULL))
                 return ('ass', ('idx', a, self.index(env, a, 2, PURE)), self.int_expr(env, r.randint(0, 3), PURE))
@@ -533,6 +551,8 @@ class Gen:
         self.used_out_files = set()
         self.idf = self.chance(0.3)      # stream numbers may be passed through an identity function (a call inside a system call's actuals)
         self.idf_used = False
+        self.setw = self.chance(0.3)
+        self.setw_used = False
         gl = []
         taken = set()
         # system-call names
@@ -594,6 +614,11 @@ class Gen:
         main = self.gen_main(plist)
         if self.strprobe:
             plist.append(self.strw_template())
+        if self.setw_used:
+            sw = Proc('proc', 'setw', [('array', 'a'), ('val', 'v'), ('val', 'i')])
+            sw.array_info['a'] = dict(writable=True, lenformal=None, len=1)
+            sw.body = ('ass', ('idx', 'a', ('var', 'i')), ('var', 'v'))
+            plist.append(sw)
         if self.idf_used:
             idf = Proc('func', 'idf', [('val', 'v')])
             idf.body = ('ret', ('var', 'v'))
